@@ -380,39 +380,32 @@ def main(tier):
     rep.trusted = ['clang IR + sroa', 'tools/llir.py provenance and write summaries (unknown provenance counts as an output effect)', 'asm write summaries from ASMFLOW']
     mod = llir.library('default')
     S = c19.summaries(mod)
-    check_reject_first(rep, mod, S)
-    check_level_switch(rep, mod)
+    rep.attempt(check_reject_first, rep, mod, S)
+    rep.attempt(check_level_switch, rep, mod)
     for c in CONFIGS:
         check_level_min(rep, c)
     import c01
     for c in CONFIGS:
         c01.check_wrapper_consts(rep, c)
-    check_out_guard(rep)
-    check_isfull_c(rep, mod)
-    check_stored_bound(rep, mod)
+    rep.attempt(check_out_guard, rep)
+    rep.attempt(check_isfull_c, rep, mod)
+    rep.attempt(check_stored_bound, rep, mod)
     import acct
-    acct.check(rep, 'z', 150, c19.field_offsets('struct isal_zstream', ['next_in', 'avail_in', 'total_in', 'next_out', 'avail_out', 'total_out']),
-               c19.field_offsets('struct inflate_state', ['next_in', 'avail_in', 'next_out', 'avail_out', 'total_out']), mod)
-    acct.check_direct_out(rep, mod, c19.field_offsets('struct isal_zstream', ['next_in', 'avail_in', 'total_in', 'next_out', 'avail_out', 'total_out']), 3)
+    rep.attempt(acct.check, rep, 'z', 150, c19.field_offsets('struct isal_zstream', ['next_in', 'avail_in', 'total_in', 'next_out', 'avail_out', 'total_out']), c19.field_offsets('struct inflate_state', ['next_in', 'avail_in', 'next_out', 'avail_out', 'total_out']), mod)
+    rep.attempt(acct.check_direct_out, rep, mod, c19.field_offsets('struct isal_zstream', ['next_in', 'avail_in', 'total_in', 'next_out', 'avail_out', 'total_out']), 3)
     import asmlin
-    asmlin.check(rep, 'DEFLATE', 60, c19.field_offsets('struct isal_zstream', ['next_in', 'avail_in', 'total_in', 'next_out', 'avail_out', 'total_out']),
-                 r'^(isal_deflate_body|isal_deflate_finish|isal_deflate_icf_body_hash_hist|isal_deflate_icf_finish_hash_hist)_0\d$',
-                 icf=dict(level_buf=c19.field_offsets('struct isal_zstream', ['level_buf'])['level_buf'],
+    rep.attempt(asmlin.check, rep, 'DEFLATE', 60, c19.field_offsets('struct isal_zstream', ['next_in', 'avail_in', 'total_in', 'next_out', 'avail_out', 'total_out']), r'^(isal_deflate_body|isal_deflate_finish|isal_deflate_icf_body_hash_hist|isal_deflate_icf_finish_hash_hist)_0\d$', icf=dict(level_buf=c19.field_offsets('struct isal_zstream', ['level_buf'])['level_buf'],
                           **c19.field_offsets('struct level_buf', ['icf_buf_next', 'icf_buf_avail_out'], headers=('igzip_level_buf_structs.h',))))
     import progress
-    progress.check(rep, mod, 20)
+    rep.attempt(progress.check, rep, mod, 20)
     import siblings
     _names = ['total_in_start', 'block_next', 'block_end', 'dist_mask', 'hash_mask', 'state', 'bitbuf', 'crc', 'has_wrap_hdr', 'has_eob_hdr', 'has_eob', 'has_hist', 'has_level_buf_init', 'count', 'tmp_out_buff',
               'tmp_out_start', 'tmp_out_end', 'b_bytes_valid', 'b_bytes_processed', 'buffer', 'head']
     _user = ['next_in', 'avail_in', 'total_in', 'next_out', 'avail_out', 'total_out', 'hufftables', 'level', 'level_buf_size', 'level_buf', 'end_of_stream', 'flush', 'gzip_flag', 'hist_bits']
     _off = c19.field_offsets('struct isal_zstream', ['internal_state.' + n for n in _names] + _user)
-    siblings.check(rep, 'DEFLATE', mod, {'isal_deflate_body_base': r'^isal_deflate_body_0\d$', 'isal_deflate_finish_base': r'^isal_deflate_finish_0\d$',
-                                          'isal_deflate_icf_body_hash_hist_base': r'^isal_deflate_icf_body_hash_hist_0\d$', 'isal_deflate_icf_finish_hash_hist_base': r'^isal_deflate_icf_finish_hash_hist_0\d$'},
-                   sorted([(n.replace('internal_state.', ''), o, 0) for n, o in _off.items()], key=lambda x: x[1]),
-                   {'has_eob': 'cleared on entry by the asm bodies; no code of the library ever reads the field (write-only bookkeeping)'}, 8)
+    rep.attempt(siblings.check, rep, 'DEFLATE', mod, {'isal_deflate_body_base': r'^isal_deflate_body_0\d$', 'isal_deflate_finish_base': r'^isal_deflate_finish_0\d$',
+                                          'isal_deflate_icf_body_hash_hist_base': r'^isal_deflate_icf_body_hash_hist_0\d$', 'isal_deflate_icf_finish_hash_hist_base': r'^isal_deflate_icf_finish_hash_hist_0\d$'}, sorted([(n.replace('internal_state.', ''), o, 0) for n, o in _off.items()], key=lambda x: x[1]), {'has_eob': 'cleared on entry by the asm bodies; no code of the library ever reads the field (write-only bookkeeping)'}, 8)
     Kst, _dr = mirror.c_values('default', ['igzip_lib.h'], [('ZSTATE_BODY', 'ZSTATE_BODY')], 'c10_zstate')
-    asmlin.check_state_siblings(rep, 'DEFLATE', mod, {'isal_deflate_body_base': r'^isal_deflate_body_0\d$', 'isal_deflate_finish_base': r'^isal_deflate_finish_0\d$',
-                                                       'isal_deflate_icf_body_hash_hist_base': r'^isal_deflate_icf_body_hash_hist_0\d$', 'isal_deflate_icf_finish_hash_hist_base': r'^isal_deflate_icf_finish_hash_hist_0\d$'},
-                                c19.field_offsets('struct isal_zstream', ['internal_state.state'])['internal_state.state'],
-                                {'isal_deflate_body_base': {Kst['ZSTATE_BODY']}, 'isal_deflate_icf_body_hash_hist_base': {Kst['ZSTATE_BODY']}}, 8)
+    rep.attempt(asmlin.check_state_siblings, rep, 'DEFLATE', mod, {'isal_deflate_body_base': r'^isal_deflate_body_0\d$', 'isal_deflate_finish_base': r'^isal_deflate_finish_0\d$',
+                                                       'isal_deflate_icf_body_hash_hist_base': r'^isal_deflate_icf_body_hash_hist_0\d$', 'isal_deflate_icf_finish_hash_hist_base': r'^isal_deflate_icf_finish_hash_hist_0\d$'}, c19.field_offsets('struct isal_zstream', ['internal_state.state'])['internal_state.state'], {'isal_deflate_body_base': {Kst['ZSTATE_BODY']}, 'isal_deflate_icf_body_hash_hist_base': {Kst['ZSTATE_BODY']}}, 8)
     return rep.finish()
